@@ -108,36 +108,59 @@ oer_encode_primitive(const asn_TYPE_descriptor_t *td,
     }
 }
 
+struct oer__open_type_buffer {
+    uint8_t *buf;
+    size_t size;
+    size_t allocated;
+};
+
 static int
-oer__count_bytes(const void *buffer, size_t size, void *bytes_ptr) {
-    size_t *bytes = bytes_ptr;
-    (void)buffer;
-    *bytes += size;
+oer__open_type_collect(const void *data, size_t size, void *key) {
+    struct oer__open_type_buffer *ob = key;
+    if(ob->size + size > ob->allocated) {
+        size_t new_size = ob->allocated ? ob->allocated : 64;
+        void *p;
+        while(new_size < ob->size + size) new_size <<= 1;
+        p = REALLOC(ob->buf, new_size);
+        if(!p) return -1;
+        ob->buf = p;
+        ob->allocated = new_size;
+    }
+    memcpy(ob->buf + ob->size, data, size);
+    ob->size += size;
     return 0;
 }
 
+/*
+ * The contents are serialized once, into a temporary buffer: their length has
+ * to be known before they are written. (Encoding them twice, first to count
+ * and then to write, doubles the work at every level of nested open types.)
+ */
 ssize_t
 oer_open_type_put(const asn_TYPE_descriptor_t *td,
                   const asn_oer_constraints_t *constraints, const void *sptr,
                   asn_app_consume_bytes_f *cb, void *app_key) {
-    size_t serialized_byte_count = 0;
+    struct oer__open_type_buffer ob = {0, 0, 0};
     asn_enc_rval_t er;
     ssize_t len_len;
 
     if(!td->op->oer_encoder) return -1;
 
-    er = td->op->oer_encoder(td, constraints, sptr, oer__count_bytes,
-                             &serialized_byte_count);
-    if(er.encoded < 0) return -1;
-    assert(serialized_byte_count == (size_t)er.encoded);
+    er = td->op->oer_encoder(td, constraints, sptr, oer__open_type_collect,
+                             &ob);
+    if(er.encoded < 0) {
+        FREEMEM(ob.buf);
+        return -1;
+    }
+    assert(ob.size == (size_t)er.encoded);
 
-    len_len = oer_serialize_length(serialized_byte_count, cb, app_key);
-    if(len_len == -1) return -1;
+    len_len = oer_serialize_length(ob.size, cb, app_key);
+    if(len_len == -1 || (ob.size && cb(ob.buf, ob.size, app_key) < 0)) {
+        FREEMEM(ob.buf);
+        return -1;
+    }
 
-    er = td->op->oer_encoder(td, constraints, sptr, cb, app_key);
-    if(er.encoded < 0) return -1;
-    assert(serialized_byte_count == (size_t)er.encoded);
-
+    FREEMEM(ob.buf);
     return len_len + er.encoded;
 }
 
